@@ -63,6 +63,34 @@ fn make_tuple_value(args: &[KValue]) -> KValue { unimplemented!() }
 fn instance_or_null(instance: Option<KValue>) -> KValue { unimplemented!() }
 struct CallInfo { result_register: Option<u8>, frame_base: u8, instance: Option<u8>, arg_count: u8, packed_arg_count: u8 }
 
+// ---- KFunction as far as call_koto_function reads it; the three binding helpers are proved in
+// unit V-bind against their own contracts, here only their frame is assumed: they touch the
+// register Vec and nothing else
+struct FunctionFlags { generator: bool }
+impl FunctionFlags {
+    #[verifier::external_body]
+    fn is_generator(&self) -> bool { unimplemented!() }
+}
+struct KFunction { chunk: Ptr<Chunk>, ip: u32, flags: FunctionFlags }
+impl KFunction {
+    #[verifier::external_body]
+    fn expected_arg_count(&self) -> u8 { unimplemented!() }
+    #[verifier::external_body]
+    fn non_locals(&self) -> Option<NonLocals> { unimplemented!() }
+}
+#[verifier::external_body]
+fn apply_optional_arguments(registers: &mut Vec<KValue>, f: &KFunction, call_arg_count: u8, expected_arg_count: u8) -> (r: Result<()>)
+    ensures final(registers)@.len() >= old(registers)@.len(), final(registers)@.len() <= old(registers)@.len() + 255,
+{ unimplemented!() }
+#[verifier::external_body]
+fn apply_variadic_arguments(registers: &mut Vec<KValue>, arg_base_index: usize, call_info: &CallInfo, f: &KFunction, expected_arg_count: u8) -> (r: Result<()>)
+    ensures final(registers)@.len() >= arg_base_index, final(registers)@.len() <= old(registers)@.len() + 1,
+{ unimplemented!() }
+#[verifier::external_body]
+fn apply_captures(registers: &mut Vec<KValue>, f: &KFunction)
+    ensures final(registers)@.len() >= old(registers)@.len(), final(registers)@.len() <= old(registers)@.len() + 0x1_0000_0000,
+{ unimplemented!() }
+
 // `unexpected_type(..)` builds an error value (error.rs); assumed total
 #[verifier::external_body]
 fn unexpected_type<T>(expected_str: &str, unexpected: &KValue) -> (r: Result<T>)
@@ -923,6 +951,38 @@ UNIT = Unit(
         r is Ok && !(final(self).execution_state is Suspended) ==> final(self).registers@.len() == old(self).registers@.len(),   // @ok_exit_is_clean
 """),
 
+        Fn(F, "impl KotoVm :: fn register_index", props=("C07", "C06"),
+           spec=r"""
+    requires self.register_base <= 0x4000_0000_0000_0000,
+    ensures r == self.register_base + register,
+"""),
+        Fn(F, "impl KotoVm :: fn call_koto_function", props=("C07", "C04", "C02"),
+           subst=[("debug_assert!(!f.flags.is_generator());", "", 1)],
+           spec=r"""
+    requires
+        old(self).wf(),
+        old(self).registers@.len() < 0x2000_0000_0000_0000,                       // memory bound (assumption)
+        // register 255 is never handed out by the compiler (V-frame::push_register::limit_is_error);
+        // `frame_base + 1` would overflow for a native re-entry with exactly 255 registers in the
+        // window (new_frame_base accepts 255): latent, noted in DESIGN 11.4
+        call_info.frame_base < 255,
+        // the frame base and the call arguments are on the stack (compile_call / call_and_run_function)
+        old(self).register_base + call_info.frame_base as int + 1 + call_info.arg_count as int <= old(self).registers@.len(),
+    ensures
+        final(self).wf(),
+        // C04/C07: the frame is entered LAST: a call whose arguments cannot be bound enters no frame
+        r is Err ==> final(self).call_stack@ == old(self).call_stack@ && final(self).register_base == old(self).register_base,   // @failed_binding_enters_no_frame
+        // otherwise exactly one, non-barrier frame, based at the caller's frame_base register
+        r is Ok ==> final(self).call_stack@.len() == old(self).call_stack@.len() + 1,                 // @enters_exactly_one_frame
+        r is Ok ==> final(self).call_stack@.last().register_base == old(self).register_base + call_info.frame_base as int,   // @frame_based_at_frame_base
+        r is Ok ==> !final(self).call_stack@.last().execution_barrier,
+        r is Ok ==> Self::stack_equiv(final(self).call_stack@.drop_last(), old(self).call_stack@),   // @caller_frames_kept
+        // the registers below the call's frame base are never touched
+        final(self).registers@.len() > old(self).register_base + call_info.frame_base as int,         // @frame_base_register_kept
+        final(self).sequence_builders@ == old(self).sequence_builders@,
+        final(self).string_builders@ == old(self).string_builders@,
+        final(self).execution_state == old(self).execution_state,
+"""),
         Type(F, "enum CallArgs"),
         Fn(F, "impl KotoVm :: fn call_and_run_function", props=("C07", "C04"),
            subst=[
